@@ -511,3 +511,19 @@ Theorem cache_from_history ifs h :
 Proof.
   intros Hwf. apply (cache_from_history_aux ifs h [] init_st 0); [apply Inv_empty|intros ? []|exact Hwf].
 Qed.
+
+(* in plain terms: every cached record was delivered, at the time recorded as its creation, on
+   the interface it is tagged with (addresses), is filed under its own name and type, and
+   expires no later than its TTL allows *)
+Corollary cache_entry_delivered ifs h k key b e :
+  wf_history h = true ->
+  In (key, b) (get_map (s_cache (state_after ifs init_st h)) k) -> In e b ->
+  exists d, In d (log_of ifs h) /\ dl_rr d = e_rr e /\ dl_t d = e_created e
+    /\ (is_addr_type (e_type e) = true -> dl_if d = e_if e)
+    /\ e_expires e <= e_created e + 1000 * e_ttl e
+    /\ kind_of_type (e_type e) = Some k /\ key = key_of k (e_name e).
+Proof.
+  intros Hwf Hin He. destruct (cache_from_history ifs h Hwf k) as [_ H].
+  destruct (H key b Hin) as [_ Hok]. destruct (Hok e He) as (A & B & L1 & d & L2 & HL & C & D & E & _ & F & _).
+  exists d. repeat split; auto. rewrite HL. apply in_app_iff. right. now left.
+Qed.
